@@ -52,10 +52,18 @@ func ASEIsolationLevelFromGo(lvl sql.IsolationLevel) (ASEIsolationLevel, error) 
 // ToGo returns the database/sql.IsolationLevel equivalent of the ASE
 // isolation level.
 func (lvl ASEIsolationLevel) ToGo() sql.IsolationLevel {
-	for sqlLvl, aseLvl := range sql2ase {
-		if aseLvl == lvl {
-			return sqlLvl
-		}
+	// Multiple database/sql levels map to the same ASE level and map
+	// iteration order is random - use a fixed reverse mapping instead of
+	// ranging over sql2ase.
+	switch lvl {
+	case ASELevelReadUncommitted:
+		return sql.LevelReadUncommitted
+	case ASELevelReadCommitted:
+		return sql.LevelReadCommitted
+	case ASELevelRepeatableRead:
+		return sql.LevelRepeatableRead
+	case ASELevelSerializableRead:
+		return sql.LevelSerializable
 	}
 
 	return sql.LevelDefault
